@@ -1622,3 +1622,8 @@ mod tests {
         );
     }
 }
+
+// verification hook (guard: cfg(kani)); contract harnesses live outside the repository
+#[cfg(kani)]
+#[path = "/verif/kani/statime_algo/filter.rs"]
+mod verif;
